@@ -99,3 +99,15 @@ let run_case (toks : string list) : string option =
      | Fault f -> Some ("fault:" ^ fault_name f)
      | Err _ -> Some "err")
   | _ -> None
+
+let () =
+  D_strat.snap_hook := (fun pubs ->
+      let rec go s = function
+        | [] -> Ok s
+        | r :: rest -> (match update_from_round s r with Ok s' -> go s' rest | Err e -> Err e | Fault f -> Fault f) in
+      match go (state_new (z_of_int 256) (z_of_int 64)) pubs with
+      | Ok s -> let str = state_str s in
+        if (try ignore (Str.search_forward (Str.regexp_string "=fault") str 0); true with Not_found -> false) then "fault:view"
+        else String.concat "!" (String.split_on_char ' ' str)
+      | Fault f -> "fault:" ^ fault_name f
+      | Err _ -> "err")
